@@ -40,5 +40,19 @@ UNIT = Unit(
            contract="""ensures exprs@.len() == 0 ==> r == eunit_spec(),
             exprs@.len() == 1 ==> r == core_of(exprs@[0]),
             exprs@.len() >= 2 ==> block_step_ok(r, exprs@[0], exprs@.subrange(1, exprs@.len() as int), *ty),"""),
+        Fn(file=CM, name="compile_expr", rename="compile_if", ret="r",
+           cut_from=re.compile(r"\n        EIf \{\s*cond,\s*then_branch,\s*else_branch,\s*ty,\s*\} => "), cut_inside=True,
+           cut_before="EWhile { cond, body, ty } =>", cut_tail="",
+           sig="fn compile_if(cond: &Box<Expr>, then_branch: &Box<Expr>, else_branch: &Box<Expr>, ty: &Ty, genv: &GlobalTypeEnv, gensym: &Gensym, diagnostics: &mut Diagnostics) -> core::Expr",
+           rewrites=[(re.compile(r"\.clone\(\)"), ".vclone()", "*"), (re.compile(r",\s*\}\s*$"), "\n}", 1)],
+           obligation="`if`: condition, then-branch and else-branch keep their places (only the selected branch is evaluated downstream)",
+           contract="ensures if_ok(r, **cond, **then_branch, **else_branch, *ty),"),
+        Fn(file=CM, name="compile_expr", rename="compile_while_expr", ret="r",
+           cut_from=re.compile(r"\n        EWhile \{ cond, body, ty \} => "), cut_inside=True,
+           cut_before="EGo { expr, ty } =>", cut_tail="",
+           sig="fn compile_while_expr(cond: &Box<Expr>, body: &Box<Expr>, ty: &Ty, genv: &GlobalTypeEnv, gensym: &Gensym, diagnostics: &mut Diagnostics) -> core::Expr",
+           rewrites=[(re.compile(r"\.clone\(\)"), ".vclone()", "*"), (re.compile(r",\s*\}\s*$"), "\n}", 1)],
+           obligation="`while`: condition and body keep their places",
+           contract="ensures while_ok(r, **cond, **body, *ty),"),
     ],
 )
